@@ -16,6 +16,10 @@ func init() {
 func c19(r *Report, s *Sem) {
 	p := r.P
 	a := s.anchors()
+	R9 := r.Rule("R9", "the listener cannot spin: the function the background listener calls in its retry-at-once loop returns an error only when its context ended — every non-nil error it returns derives from ctx.Err() (a refusal reported at once, with the context live, makes the loop dial back-to-back without the back-off)", 2)
+	defer checkBuilderFailsOnlyWithContext(r, s, R9)
+	R10 := r.Rule("R10", "the listener is not left deaf: a transport whose Close signals with a single token on a buffered channel has only its Receive as consumer of that token (a Send that also waits on it can take it and leave the receiver goroutine parked on a closed transport, so the client never rebuilds)", 1)
+	defer checkDoneTokenConsumers(r, s, R10)
 	defer r.Import(s, "C13", "R9", "R8", "a server-initiated end is always seen: the session hand-off queue has constant capacity ≥ 1 whatever buffer size is configured, so the receiver can park the terminal envelope, fold the state and close the transport even when nobody is waiting for a session envelope", 1)
 	R1 := r.Rule("R1", "receiver exit ⇒ channel no longer counts as established (client role): every exit path of the receiver goroutine either leaves because the established predicate is false, or was requested by the stop routine (context cancelled), or passes Transport.Close — so the client's reuse test fails and it rebuilds", 1)
 	R2 := r.Rule("R2", "no spin and no stale reuse: the client hands out its cached channel only under the facts state==established ∧ connected, otherwise only a freshly built one; the rebuild loop re-checks the context and sleeps a back-off, counted in milliseconds or more, that grows with the attempt counter on every retry; the background listener goes through getOrBuildChannel and the dispatch loop on every cycle", 6)
